@@ -64,8 +64,23 @@ func c19Init() {
 			panic(err)
 		}
 		c19Docs[cd] = buf.Bytes()
+		for i, v := range c19LongValues {
+			var lb bytes.Buffer
+			if err := gotype.Fold(v, cd.NewEnc(&lb, 0)); err != nil {
+				panic(err)
+			}
+			c19LongDocs[cd][i] = lb.Bytes()
+		}
 	}
 }
+
+// documents whose strings and keys are long (beyond the parsers' fixed scratch buffers) and need unescaping in
+// JSON; two documents of the same shape with different content, so that a buffer shared between two parsers shows
+var c19LongValues = [2]interface{}{
+	map[string]interface{}{"key-1-" + strings.Repeat("k", 60) + "\n": []interface{}{"v1\"" + strings.Repeat("a", 70), "short\t1", strings.Repeat("p", 40) + "\\" + strings.Repeat("q", 30)}},
+	map[string]interface{}{"KEY-2-" + strings.Repeat("K", 60) + "\n": []interface{}{"V2\"" + strings.Repeat("b", 70), "SHORT\t2", strings.Repeat("r", 40) + "\\" + strings.Repeat("s", 30)}},
+}
+var c19LongDocs = map[*Codec]*[2][]byte{codecJSON: {}, codecUBJSON: {}, codecCBOR: {}}
 
 // a body builds its own instances, runs, and returns its observable result
 type c19Body struct {
@@ -117,6 +132,22 @@ func c19Bodies() []c19Body {
 			}
 			return model.Dump(t)
 		}})
+	}
+	for _, cd := range codecs {
+		for i := 0; i < 2; i++ {
+			cd, i := cd, i
+			out = append(out, c19Body{name: fmt.Sprintf("Parse(%s, long escaped strings #%d)->Unfold(interface{})", cd.Name, i+1), run: func(_ *gotype.Iterator, _ *bytes.Buffer) string {
+				var t interface{}
+				u, err := gotype.NewUnfolder(&t)
+				if err != nil {
+					return "error: " + err.Error()
+				}
+				if err := cd.Parse(c19LongDocs[cd][i], u); err != nil {
+					return "error: " + err.Error()
+				}
+				return model.Dump(t)
+			}})
+		}
 	}
 	// a target that knows only a few members: everything else (nested objects, arrays, strings) is skipped
 	type partial struct {
